@@ -42,6 +42,9 @@ ATOMID_EDGE_HY = [0, 99999, 100000, 100001, 43770015, 43770016, 87440030, 874400
                   2 ** 31, -1, -9999, -10000]
 
 
+_DESC = {}
+
+
 def f32(x):
     return float(np.float32(x))
 
@@ -81,7 +84,9 @@ def gen_unknown_resname(rng, ccd_ids, n=None):
 def gen_residues(rng, ccd, n_target, hybrid, allow_empty_chain=True):
     """List of residues {chain,res_id,ins,res_name,hetero,atoms:[(name,elem)]} with
     (chain,res_id,ins) unique and atom names unique inside a residue."""
-    desc = ccd.describe()
+    if "d" not in _DESC:
+        _DESC["d"] = ccd.describe()
+    desc = _DESC["d"]
     ids = desc["order"]
     pep = [c for c in ids if ccd.link_class(c) == "peptide"]
     nuc = [c for c in ids if ccd.link_class(c) == "nucleic"]
